@@ -5,7 +5,7 @@ From AQ Require Import lib.Base lib.Tok model.KeyPhase proofs.KeyPhaseProofs mod
 (* ---- the transcription is pinned to the source: gen/C02Recv.v is written from the tree under check on every run ---- *)
 Lemma packet_recv_as_modelled_lemma :
   RECV_SKELETON = modelled_skeleton /\
-  GET_EPOCH_OK = true /\ DISCARD_EPOCH_OK = true /\ CLOSE_OK = true /\ SPIN_FN_OK = true /\
+  GET_EPOCH_OK = true /\ DISCARD_EPOCH_OK = true /\ DISCARD_SPACE_CLEARS_ACK_AT = true /\ CLOSE_OK = true /\ SPIN_FN_OK = true /\
   DISCARD_SITES = [(1, 0); (2, 0); (3, 9); (4, 2); (5, 2)] /\ KEY_UPDATE_SITES = [6] /\
   RESERVED_MASK_SHORT = 24 /\ RESERVED_MASK_LONG = 12 /\ PROTOCOL_VIOLATION_CODE = 10 /\ SPIN_BIT = 32.
 Proof. repeat split; reflexivity. Qed.
